@@ -206,7 +206,7 @@ func cmdMCP(args []string) error {
 						emit(rec)
 					}
 					for _, tool := range mcpTools {
-						variants := []string{"minimal", "hostile-path", "symlink-dotdot-path", "actor-mismatch", "unknown-key"}
+						variants := []string{"minimal", "hostile-path", "symlink-dotdot-path", "actor-mismatch", "actor-case-variant", "actor-prefix", "actor-superstring", "unknown-key"}
 						for _, variant := range variants {
 							if err := reset(); err != nil {
 								return err
@@ -228,6 +228,12 @@ func cmdMCP(args []string) error {
 								}
 							case "actor-mismatch":
 								a["actor"] = "someone-else"
+							case "actor-case-variant":
+								a["actor"] = "OPS@Example"
+							case "actor-prefix":
+								a["actor"] = "ops@exampl"
+							case "actor-superstring":
+								a["actor"] = "ops@example.evil"
 							case "unknown-key":
 								a["definitely_not_a_key"] = true
 							}
